@@ -214,7 +214,7 @@ Proof.
   - destruct (get_m s m) as [x|] eqn:Ex; auto. apply NC_finish_m; auto.
     exact (KN_get _ _ _ H Ex).
   - destruct (get_m s m) as [x|] eqn:Ex; auto. pose proof (KN_get _ _ _ H Ex) as Hx.
-    destruct (m_bad x).
+    destruct (nth (m_idx x) (m_bad x) false).
     + apply IH. apply NC_put_m; auto.
     + pose proof (NC_try_start s m x H Hx) as H1.
       destruct (try_start s m x) as [s' cont]. cbn [fst] in H1. destruct cont; auto.
